@@ -230,7 +230,12 @@ class Gen:
             if self.r.random() < 0.4:
                 allowed = self.o.many_locals_break or len(self.scopes[-1]) < 4
                 if allowed:
-                    self.emit("if %s { %s; }" % (self.cond(), self.r.choice(["break", "continue"])))
+                    if self.r.random() < 0.3:
+                        # both branches leave: the join label is dead
+                        self.emit("if %s { %s; } else { %s; }" % (self.cond(), self.r.choice(["break", "continue"]),
+                                                                 self.r.choice(["break", "continue"])))
+                    else:
+                        self.emit("if %s { %s; }" % (self.cond(), self.r.choice(["break", "continue"])))
             self.ind -= 1
             self.pop()
             self.in_loop -= 1
